@@ -27,7 +27,7 @@ LEVEL_TEXT = ("Scenarios restricted to the v1 vocabulary (discrete/continuous re
               "be identical. Runs with the grid section omitted / optional sections omitted must equal the explicit ones.")
 LEVEL_NOTE = "The TOML text is produced by the harness's own writer and read by ladim through tomli; with diffusion > 0 the tracker's rng is re-seeded identically by the harness in every run so that outputs are comparable exactly."
 RULE = ("case = scenario spec; renderings yaml2, toml2, yaml1 (+ grid-omitted, sections-omitted variants). Non-trivial: several release times or continuous release and moving water; distinct by spec.")
-MANDATORY = ["wildcard_with_question_mark", "reference_time_as_native_datetime_with_time_of_day", "extra_forcing_variable", "version_key_as_string_with_decimal_point", "v1_grid_file_omitted_pairs", "yaml_anchor_and_alias", "steps_not_multiple_of_output_period", "wildcard_names_of_unequal_length", "v1_file_names_in_files_section", "v1_discrete_with_release_frequency", "configure_dicts_compared", "plugin_gridforce", "version_key_omitted", "yaml2_vs_toml2", "yaml2_vs_yaml1", "grid_omitted_pairs", "wildcard_forcing", "optional_sections_omitted_pairs", "continuous", "discrete", "subgrid", "diffusion_seeded",
+MANDATORY = ["diffusion_coefficient_of_exactly_one", "configuration_file_names_with_several_dots", "wildcard_with_question_mark", "reference_time_as_native_datetime_with_time_of_day", "extra_forcing_variable", "version_key_as_string_with_decimal_point", "v1_grid_file_omitted_pairs", "yaml_anchor_and_alias", "steps_not_multiple_of_output_period", "wildcard_names_of_unequal_length", "v1_file_names_in_files_section", "v1_discrete_with_release_frequency", "configure_dicts_compared", "plugin_gridforce", "version_key_omitted", "yaml2_vs_toml2", "yaml2_vs_yaml1", "grid_omitted_pairs", "wildcard_forcing", "optional_sections_omitted_pairs", "continuous", "discrete", "subgrid", "diffusion_seeded",
              "particle_variable_column", "values_compared"]
 ASSUMPTIONS = ["only what the v1 vocabulary can express"]
 MIN_CASES_PER_PROCESS = 4  # several runs share one interpreter: state leaking between runs (module caches, shared defaults) becomes observable
@@ -84,7 +84,7 @@ def spec_for(case: dict[str, Any]) -> dict[str, Any]:
     cont = bool(case["idx"] % 2)
     nfiles = int(rng.choice([1, 2, 3]))
     return dict(dt=dt, ns=ns, cont=cont, freq=int(rng.integers(1, 3)), subgrid=[2, 17, 1, 13] if case["idx"] % 3 == 0 else None,
-                diffusion=float(rng.choice([0.0, 0.0, 25.0])), advection=str(rng.choice(["EF", "RK2", "RK4"])),
+                diffusion=float(rng.choice([0.0, 0.0, 25.0, 1.0])), diff_as_int=bool(case["idx"] % 2), dotted_names=int(case["idx"] % 3), advection=str(rng.choice(["EF", "RK2", "RK4"])),
                 nfiles=nfiles, wildcard=bool(nfiles > 1 or rng.random() < 0.5), reference=("2019-12-31T12:30:00" if case["idx"] % 4 == 1 else "2019-12-31T00:00:00") if (rng.random() < 0.5 or case["idx"] % 4 == 1) else None,
                 cohort=bool(rng.random() < 0.6), ibm=bool(rng.random() < 0.5 or case["idx"] % 4 == 3), xf=bool(case["idx"] % 4 == 3), outper_spelling=int(rng.integers(2)), seed=int(rng.integers(10**6)),
                 outper_mult=2 if (case["idx"] // 2) % 2 else 1, version_key=bool(rng.random() < 0.5 or case["idx"] % 4 == 2), vsp=case["idx"] % 4, plugin_gridforce=bool(case["idx"] % 4 == 1), odd_names=bool(nfiles > 1 and case["idx"] % 3 != 2))
@@ -173,8 +173,9 @@ def renderings(sp: dict[str, Any], wd: Path, w, rls: Path, names: list[str]) -> 
         v2["state"]["instance_variables"]["temp"] = "float"
         v2["state"]["default_values"]["temp"] = 0
     v2["tracker"] = dict(advection=sp["advection"])
+    dval = int(sp["diffusion"]) if (sp["diffusion"] == 1.0 and sp.get("diff_as_int")) else sp["diffusion"]  # a coefficient of exactly 1 m2/s, written 1.0 or 1
     if sp["diffusion"]:
-        v2["tracker"]["diffusion"] = sp["diffusion"]
+        v2["tracker"]["diffusion"] = dval
     v2["release"] = dict(release_file=str(rls), names=names)
     if sp["cont"]:
         v2["release"].update(continuous=True, release_frequency=sp["freq"] * dt)
@@ -187,7 +188,7 @@ def renderings(sp: dict[str, Any], wd: Path, w, rls: Path, names: list[str]) -> 
         time_control=dict(start_time=start, stop_time=stop),
         files=dict(particle_release_file=str(rls), output_file=out("yaml1")),
         gridforce=dict(module=gfmod if sp["plugin_gridforce"] else "ladim1.gridforce.ROMS", input_file=forcing_file, gridfile=gridfile),
-        numerics=dict(dt=dt, advection=sp["advection"], diffusion=sp["diffusion"]),
+        numerics=dict(dt=dt, advection=sp["advection"], diffusion=dval),
         particle_release=dict(variables=names, particle_variables=pvars, release_time="time"),
         output_variables=dict(outper=outper_v, format="NETCDF4", instance=ivars, particle=pvars),
     )
@@ -293,6 +294,8 @@ def run_case(case: dict[str, Any], wd: Path) -> dict[str, Any]:
     sit["wildcard_names_of_unequal_length"] = int(sp["wildcard"] and sp["odd_names"])
     sit["particle_variable_column"] = int(sp["cohort"])
     sit["diffusion_seeded"] = int(sp["diffusion"] > 0)
+    sit["diffusion_coefficient_of_exactly_one"] = int(sp["diffusion"] == 1.0)
+    sit["configuration_file_names_with_several_dots"] = int(sp.get("dotted_names", 0) > 0)
 
     def seeded_init(tok, res, self, *a, **k):
         self.rng = np.random.default_rng(sp["seed"])
@@ -302,7 +305,9 @@ def run_case(case: dict[str, Any], wd: Path) -> dict[str, Any]:
     def run(name: str, conf: dict[str, Any], fmt: str):
         from ladim.configure import configure  # noqa: PLC0415
 
-        path = wd / (f"{name}.toml" if fmt == "toml" else f"{name}.yaml")
+        # configuration file names with further dots in them (ladim.v2.toml, run.2020-03-01.yaml): the last suffix tells the format
+        stem = name + ["", ".v2", ".2020-03-01"][sp.get("dotted_names", 0)]
+        path = wd / (f"{stem}.toml" if fmt == "toml" else f"{stem}.yaml")
         if fmt == "toml":
             path.write_text(to_toml(conf) + "\n")
         else:
